@@ -165,6 +165,10 @@ def detect_one(name, tier, also):
         also = RELATED.get(name.split("-")[0], [])
     d = os.path.join(VERIF, "seeded", name)
     pid = name.split("-")[0]
+    try:
+        pid = json.load(open(os.path.join(d, "meta.json"))).get("property") or pid
+    except Exception:  # noqa
+        pass
     wt = make_worktree("detect-" + name)
     build = os.path.join(SCRATCH, "build-" + name)
     res = {"name": name, "property": pid, "checks": {}}
@@ -192,7 +196,7 @@ def detect_one(name, tier, also):
 def cmd_detect(names, jobs, tier, also):
     sdir = os.path.join(VERIF, "seeded")
     if not names:
-        names = sorted(n for n in os.listdir(sdir) if os.path.isdir(os.path.join(sdir, n)))
+        names = sorted(n for n in os.listdir(sdir) if os.path.exists(os.path.join(sdir, n, "patch.diff")))
     results = {}
     rpath = os.path.join(sdir, "results.json")
     if os.path.exists(rpath):
@@ -217,6 +221,12 @@ def cmd_detect(names, jobs, tier, also):
             results[key] = r
             own = r.get("checks", {}).get(r.get("property"), {})
             print(n, tier, "DETECTED" if own.get("detected") else "MISSED/ERR %s" % (r.get("error") or own), {k: v["detected"] for k, v in r.get("checks", {}).items()}, flush=True)
+            try:
+                on_disk = json.load(open(rpath))
+            except Exception:  # noqa
+                on_disk = {}
+            on_disk[key] = results[key]
+            results = on_disk
             json.dump(results, open(rpath, "w"), ensure_ascii=False, indent=1, sort_keys=True)
     return results
 
